@@ -241,7 +241,7 @@ func envSet(env string, upd map[string]int) string {
 	m := map[string]string{}
 	if env != "" {
 		for _, kv := range strings.Split(env, ";") {
-			i := strings.Index(kv, "=")
+			i := strings.LastIndex(kv, "=")
 			m[kv[:i]] = kv[i+1:]
 		}
 	}
